@@ -48,6 +48,7 @@ CHECK_DEADLOCK FALSE
 """
 
 C_EXPR = "@@\nvar x expression\n@@\n-old(x)\n+new(x)\n"
+C_SPREAD = "@@\nvar xs expression\n@@\n-spread(..., xs)\n+spread(..., xs...)\n"      # a token that was absent appears
 C_STMT = "@@\n@@\n anchor()\n-drop()\n"
 C_SIG = "@@\nvar f identifier\n@@\n-func f(marker int) {\n+func f(marker int, extra string) {\n   ...\n }\n"
 C_KIND = "@@\nvar f identifier\n@@\n-func f(marker int) {\n+var f = func(marker int) {\n   ...\n }\n"
@@ -61,7 +62,7 @@ def doc_lines(style, n):
             "directive": ["// d%d has a directive." % n, "//go:generate echo d%d" % n]}[style]
 
 
-def render_decl(s, n):
+def render_decl(s, n, spread=False):
     out = []
     if s["gap"] == "free":
         out += ["// free-standing %d" % n, ""]
@@ -76,7 +77,7 @@ def render_decl(s, n):
         if s["inner"] == "expr":
             out.append("\tuse(1, /* expr %d */ 2)" % n)
         if s["touch"] == "expr":
-            out.append("\told(%d)" % n)
+            out.append("\tspread(%d, rest)" % n if spread else "\told(%d)" % n)
         if s["touch"] == "stmt":
             out += ["\tanchor()", "\tdrop()"]
         out.append("\tlast(%d)" % n)
@@ -98,7 +99,7 @@ def render_decl(s, n):
     return out
 
 
-def render(f, rng):
+def render(f, rng, spread=False):
     h = f["hdr"]
     out = []
     if h["build"] == "tag":
@@ -110,11 +111,13 @@ def render(f, rng):
     out.append("package a" + (" // pkg trail" if h["pkgtrail"] == "eol" else ""))
     out.append("")
     for i, s in enumerate(f["decls"], 1):
-        out += render_decl(s, i)
+        out += render_decl(s, i, spread)
     touches = {(s["kind"], s["touch"]) for s in f["decls"]}
     changes = []
     if any(t == "expr" for _, t in touches):
         changes.append(C_EXPR)
+    if spread and ("func", "expr") in touches:
+        changes.append(C_SPREAD)
     if any(t == "stmt" for _, t in touches):
         changes.append(C_STMT)
     if ("func", "decl") in touches:
@@ -164,6 +167,10 @@ def run(ctx):
     for i, f in enumerate(files):
         src, patch = render(f, ctx.rng)
         cases.append(dict(id="gen-%d" % i, src=src, patch=patch, file=f))
+        if any(d["kind"] == "func" and d["touch"] == "expr" for d in f["decls"]):
+            # the same file with expression sites that gain a token which was absent ('rest' -> 'rest...')
+            src, patch = render(f, ctx.rng, spread=True)
+            cases.append(dict(id="gen-%d-spread" % i, src=src, patch=patch, file=f))
     cases += corpus_cases(ctx)
     results = execute(ctx, cases)
     n_changed = n_untouched = 0
